@@ -33,7 +33,7 @@ BOUND = {
 }
 
 MPHI = [(125.0, 1.0), (0.0, 1.0), (1.0, 1.0), (200.0, 1.0), (125.0, 0.3), (125.0, 1e-3)]
-VOLS = ["uniform", "dominant", "onezero", "geometric", "allbutone"]
+VOLS = ["uniform", "dominant", "onezero", "geometric", "allbutone", "sparse"]
 SCALE_VGS = ["ss_xz", "ps_xy+", "ax_z-", "sub_yx", "rigid_xz", "gen0", "gens_tr"]
 TILES = [1, 2, 3, 10, 100, 1000, 4096, 8192, 10000, 16384, 65536, 100000]
 
